@@ -352,6 +352,37 @@ def _thread_result_switch(aj, lo, hi, ret_local, dest, target, sp, is_bool=False
     return True
 
 
+def _instantiate_generics(anchor, helper, call, blocks):
+    """A generic helper (`fn parse_arg<T: FromStr>(..)`) spliced at `parse_arg::<u64>(..)`: the calls inside the copy are made at
+    the call site's type arguments (`str::parse::<T>` becomes `str::parse::<u64>` in `fnx`, and in the `ga` index list)."""
+    gp, ga = helper.j.get("gp") or [], call.get("ga") or []
+    if not gp or len(gp) != len(ga):
+        return
+    pairs = [(p, a) for (p, a) in zip(gp, ga) if isinstance(p, int) and isinstance(a, int) and p != a]
+    if not pairs:
+        return
+    names = []
+    for (p, a) in pairs:
+        try:
+            names.append((helper.types.s(p), anchor.types.s(a)))
+        except Exception:
+            return
+    import re
+    for b in blocks:
+        t = b["term"]
+        if t["k"] != "call":
+            continue
+        if isinstance(t.get("ga"), list):
+            t["ga"] = [dict(pairs).get(x, x) if isinstance(x, int) else x for x in t["ga"]]
+        for key in ("fnx", "resx"):
+            if isinstance(t.get(key), str):
+                v = t[key]
+                for (pn, an) in names:
+                    if re.fullmatch(r"[A-Za-z_][A-Za-z0-9_]*", pn):
+                        v = re.sub(r"(?<![A-Za-z0-9_:])%s(?![A-Za-z0-9_])" % re.escape(pn), an, v)
+                t[key] = v
+
+
 def inline_call(anchor, call_bb, helper):
     """Return a new Body JSON for `anchor` with the call at block `call_bb` to `helper` spliced in."""
     aj = copy.deepcopy(anchor.j)
@@ -369,6 +400,7 @@ def inline_call(anchor, call_bb, helper):
             aj["debug"].append({"name": d["name"], "v": _map_place(d["v"], ol), "arg": None})
     # blocks
     new_blocks = [_map_block(b, ol, ob) for b in hj["blocks"]]
+    _instantiate_generics(anchor, helper, call, new_blocks)
     ret_local = ol   # helper's _0
     for nb in new_blocks:
         if nb["term"]["k"] == "return":
@@ -616,6 +648,19 @@ ROLE_PREFIXES = ("xs::api::response_", "xs::api::handle_")
 MAX_HELPER_BLOCKS = 160
 
 
+def _own_size(h):
+    """Blocks of a helper that are its own code: the expansion of a `tracing` event (some 40 blocks each) is not counted."""
+    n = 0
+    for b in h.j["blocks"]:
+        if b["cleanup"]:
+            continue
+        exp = b["term"].get("exp") or []
+        if any("tracing" in str(m) or "$xs::" in str(m) for m in exp):
+            continue
+        n += 1
+    return n
+
+
 def _is_key_constructor_site(b, c):
     from .facts import walk
     for u in b.calls():
@@ -640,18 +685,28 @@ def single_caller_helpers(facts, anchors, pinned):
     for fn, ss in sites.items():
         if len(ss) > MAX_SITES or fn in pinned:
             continue
-        if any(b.def_ not in anchors for (b, c) in ss):
-            continue
         h = facts.body(fn)
+        # sites outside the anchors (or in another module) keep calling the helper, which then stays visible: a shared,
+        # possibly public, helper (`pub fn check_x(&self, ..)` used by the anchor and by a front end) is still looked through at
+        # the anchor's call site
+        all_sites = ss
+        ss = [(b, c) for (b, c) in ss if b.def_ in anchors and h is not None and _module(h.def_) == _module(facts.enclosing_fn(b))]
+        partial = len(ss) != len(all_sites)
+        if not ss:
+            continue
         if h is None or h.is_coroutine or h.kind not in ("Fn", "AssocFn"):
             continue
-        if len(ss) > 1 and len(h.blocks) > MAX_HELPER_BLOCKS:
+        if len(ss) > 1 and _own_size(h) > MAX_HELPER_BLOCKS:
             continue
         if any(h.crate is not b.crate for (b, c) in ss):
             continue
         # only private helpers living in the anchors' own module ("extract function" refactors), never API items
-        if not (h.vis or "").startswith("Restricted") or any(_module(h.def_) != _module(facts.enclosing_fn(b)) for (b, c) in ss):
+        if any(_module(h.def_) != _module(facts.enclosing_fn(b)) for (b, c) in ss):
             continue
+        if not (h.vis or "").startswith("Restricted"):
+            if "<" in h.def_:
+                continue        # methods of generic / macro-generated types (typestate builders): rules read those calls as they are
+            partial = True      # an API item: callers outside this crate's bodies may exist, never hide it
         if fn in _names_used_by_rules() or fn.startswith(ROLE_PREFIXES):
             continue
         if any(cc.fn == fn for cc in h.calls()):
@@ -667,12 +722,12 @@ def single_caller_helpers(facts, anchors, pinned):
             cor = facts.body(sh[0]) if sh else None
             if cor is None or not cor.is_coroutine or len(cor.blocks) > 4 * MAX_HELPER_BLOCKS:
                 continue
-            if all(b.is_coroutine and _await_pattern(b.j["blocks"], c.bb) is not None for (b, c) in ss):
+            if not partial and all(b.is_coroutine and _await_pattern(b.j["blocks"], c.bb) is not None for (b, c) in ss):
                 for (b, c) in ss:
-                    out.append((b, c.bb, (h, cor, sh[1])))
+                    out.append((b, c.bb, (h, cor, sh[1]), True))
             continue
         for (b, c) in ss:
-            out.append((b, c.bb, h))
+            out.append((b, c.bb, h, not partial))
     return out
 
 
@@ -689,7 +744,10 @@ def apply(facts, anchors, pinned):
                 continue    # one rewrite per body per round (block indices of the other sites are stale afterwards)
             cur = facts.body(b.def_)
             try:
-                res = desugar.desugar_iterator(facts, cur, bb) if fn in desugar.TERMINALS else desugar.desugar_combinator(facts, cur, bb)
+                if fn == desugar.POLL_FN:
+                    res = desugar.desugar_select(facts, cur, bb)
+                else:
+                    res = desugar.desugar_iterator(facts, cur, bb) if fn in desugar.TERMINALS else desugar.desugar_combinator(facts, cur, bb)
             except Exception:
                 res = None
             if res is None:
@@ -715,7 +773,7 @@ def apply(facts, anchors, pinned):
         if not cands:
             break
         # one call site per anchor per round (block indices shift only by appending, so several are fine too)
-        for (b, bb, h) in cands:
+        for (b, bb, h, hide) in cands:
             cur = facts.body(b.def_)
             cor = None
             if isinstance(h, tuple):
@@ -726,9 +784,14 @@ def apply(facts, anchors, pinned):
             else:
                 nj = inline_call(cur, bb, h)
             nb = Body(cur.crate, nj)
+            nb.hidden = getattr(cur, "hidden", False)
             cur.crate.bodies[nb.def_] = nb
             cur.crate.body_list[cur.crate.body_list.index(cur)] = nb
-            h.hidden = True
+            if hide:
+                h.hidden = True
+                hc = facts.body(h.def_)      # the helper may itself have been rebuilt in this round (something was spliced into it)
+                if hc is not None:
+                    hc.hidden = True
             done.append((b.def_, h.def_))
             if cor is not None:
                 cor.hidden = True
